@@ -555,7 +555,9 @@ func judgeClient(sc *cScript, obs *cObs, prop string) (out []jv) {
 	for ; ; i++ {
 		// --- before attempt i: request reset (i>0)
 		if i > 0 {
-			if sc.Body == "noget" || sc.Body == "noget_seek" {
+			// a seekable body may be given up on (ErrNoGetBody) or rewound to where it stood; if a
+			// further request is sent, its body is judged below (the unread remainder, nothing else)
+			if sc.Body == "noget" || sc.Body == "noget_seek" && i >= len(obs.Attempts) {
 				result = "nogetbody"
 				break
 			}
